@@ -185,3 +185,156 @@ def index_maps_unbounded(env):
             bad = 0.0 if ok else 1.0
             for name, verdict, model in astvc.verify_index_function(fn, kind):
                 env.numeric["%s (unbounded, AST VC, z3): %s" % (fn.__name__, name)] = (np.array([bad]), np.array([1.0]), np.array([0.0]), np.array([0.0]))
+
+
+def _wiring(p, top):
+    """{(class, role, input): source descriptor} of every leaf-component input of a set-up model; a source is
+    ('comp', class, role, output) or ('ext', promoted name of the independent variable)"""
+    import openmdao.api as om
+    m = p.model
+    conn = m._conn_global_abs_in2out
+    comps = {}
+    for c in m.system_iter(recurse=True, typ=om.core.component.Component if hasattr(om, "core") else object):
+        comps[c.pathname] = c
+
+    systems = {x.pathname: x for x in m.system_iter(recurse=True, include_self=True)}
+
+    def ident(path):
+        """(class, surface the component or its nearest enclosing group was built for, local name)"""
+        role = ""
+        q = path
+        while q:
+            try:
+                if "surface" in systems[q].options:
+                    role = systems[q].options["surface"]["name"]
+                    break
+            except Exception:
+                pass
+            q = q.rsplit(".", 1)[0] if "." in q else ""
+        return (type(comps[path]).__name__, role, path.rsplit(".", 1)[-1])
+    ids = {}
+    for path in comps:
+        if path.startswith("_auto_ivc") or isinstance(comps[path], om.IndepVarComp):
+            continue
+        ids.setdefault(ident(path), []).append(path)
+    dup = {k: v for k, v in ids.items() if len(v) > 1}
+    table = {}
+    units = {}
+    meta_in = m._var_allprocs_abs2meta["input"]
+    for tgt, src in conn.items():
+        tpath, tvar = tgt.rsplit(".", 1)
+        if tpath not in comps or isinstance(comps[tpath], om.IndepVarComp):
+            continue
+        spath, svar = src.rsplit(".", 1)
+        key = ident(tpath) + (tvar,)
+        if spath.startswith("_auto_ivc") or isinstance(comps.get(spath), om.IndepVarComp):
+            # the independent variable: named by the promoted name of the input at the top level
+            table[key] = ("ext", m._resolver.abs2prom(tgt, "input") if spath.startswith("_auto_ivc") else svar)
+        else:
+            table[key] = ("comp",) + ident(spath) + (svar,)
+        units[key] = meta_in[tgt]["units"]
+    return table, units, dup
+
+
+@job("c19.mphys_wiring", ("C19",), cfgs=[dict(nsurf=1, compressible=True), dict(nsurf=2, compressible=False), dict(nsurf=3, compressible=True)])
+def mphys_wiring(env, nsurf, compressible):
+    """modular equivalence of the MPhys wrapper groups and the native analysis point: both are built from the same
+    component classes (each under its own contract); in the real connection tables every component input is fed by the
+    same component output (same class, same surface, same variable) in both models, and the independent variables are
+    shared in the same way - hence the same forces and coefficients for the same meshes and flow"""
+    import openmdao.api as om
+    from openaerostruct.aerodynamics.aero_groups import AeroPoint
+    from openaerostruct.mphys.aero_solver_group import AeroSolverGroup
+    from openaerostruct.mphys.aero_funcs_group import AeroFuncsGroup
+    from .c01_components import two_surfaces
+    surfs = two_surfaces(dict(nx=3, ny=2, symmetry=True, side="right", nsurf=nsurf))
+    for s in surfs:
+        s["with_viscous"] = True
+        s["with_wave"] = True
+
+    from .. import gsx
+    from mphys.core import MPhysVariables
+    pn = om.Problem(reports=False)
+    gsx.aero_model(surfs, compressible=compressible)(pn.model)
+    pn.setup()
+    pn.final_setup()
+
+    pm = om.Problem(reports=False)
+    FC = MPhysVariables.Aerodynamics.FlowConditions
+    ivc = om.IndepVarComp()
+    ivc.add_output("v", val=1.0, units="m/s")
+    ivc.add_output("rho", val=1.0, units="kg/m**3")
+    ivc.add_output("cg", val=np.zeros(3), units="m")
+    ivc.add_output(FC.ANGLE_OF_ATTACK, val=1.0, units="deg")
+    ivc.add_output(FC.YAW_ANGLE, val=0.0, units="deg")
+    ivc.add_output(FC.MACH_NUMBER, val=0.5)
+    ivc.add_output(FC.REYNOLDS_NUMBER, val=1.0e6, units="1/m")
+    for s in surfs:
+        ivc.add_output(s["name"] + "_def_mesh", val=s["mesh"], units="m")
+    pm.model.add_subsystem("flight", ivc, promotes=["*"])
+    pm.model.add_subsystem("coupling", AeroSolverGroup(surfaces=surfs, compressible=compressible), promotes=["*"])
+    pm.model.add_subsystem("funcs", AeroFuncsGroup(surfaces=surfs, write_solution=False, output_dir="."), promotes=["*"])
+    pm.setup()
+    pm.final_setup()
+
+    tn, un, dn = _wiring(pn, "ap")
+    tm, um, dm = _wiring(pm, "")
+    env.holds("C19", "component identities (class, surface) are unique in both models", not dn and not dm, "%s %s" % (dn, dm))
+    cn = {k[:3] for k in tn}
+    cm = {k[:3] for k in tm}
+    env.holds("C19", "the MPhys groups consist of the same components as the native analysis point", cn == cm,
+              "only native: %s; only MPhys: %s" % (sorted(cn - cm), sorted(cm - cn)))
+    ext = {}
+    for key in sorted(tn):
+        a, b = tn[key], tm.get(key)
+        nm = "%s[%s]:%s.%s" % key
+        if b is None:
+            env.holds("C19", "MPhys wiring: input %s is connected" % nm, False, "fed by %s natively, unconnected in the MPhys groups" % (a,))
+            continue
+        if a[0] == "comp" or b[0] == "comp":
+            env.holds("C19", "MPhys wiring: input %s has the native source" % nm, a == b, "native %s, MPhys %s" % (a, b))
+        else:
+            ext.setdefault(a[1], set()).add(b[1])
+        env.holds("C19", "MPhys wiring: input %s has the native units" % nm, un[key] == um.get(key), "%s vs %s" % (un[key], um.get(key)))
+    for a, bs in sorted(ext.items()):
+        env.holds("C19", "independent variable %s of the native model is one variable of the MPhys groups" % a, len(bs) == 1, str(sorted(bs)))
+    inv = {}
+    for a, bs in ext.items():
+        for b in bs:
+            inv.setdefault(b, set()).add(a)
+    for b, as_ in sorted(inv.items()):
+        env.holds("C19", "independent variable %s of the MPhys groups is one variable of the native model" % b, len(as_) == 1, str(sorted(as_)))
+    env.holds("C19", "the wiring comparison saw the component inputs", len(tn) > 40, "%d inputs" % len(tn))
+    env.assumptions.add("MPhys groups vs native: equivalence by identical wiring of identical component classes (each class under its own contracts)")
+
+
+@job("c19.multisection_wiring", ("C19", "C18", "C14"), cfgs=[dict(nsec=2), dict(nsec=3), dict(nsec=4, _tier=T)])
+def multisection_wiring(env, nsec):
+    """the multi-section geometry group feeds the unification (and joining) component section by section: slot k of the
+    unified mesh / thickness-to-chord distribution / edge distances reads section k's own geometry group - so that the
+    unified surface (whose drag estimates read the unified t/c) is the sections placed side by side.  Real connection table
+    of the real group; the components themselves are under deriv.GeomMultiUnification / deriv.GeomMultiJoin."""
+    import openmdao.api as om
+    from openaerostruct.geometry.geometry_group import MultiSecGeometry
+    names = ["sec%d" % k for k in range(nsec)]
+    surf = dict(name="surface", is_multi_section=True, num_sections=nsec, sec_name=names, symmetry=True, S_ref_type="wetted",
+                taper=[1.0 - 0.1 * k for k in range(nsec)], span=[2.0 + 0.5 * k for k in range(nsec)], sweep=[0.0] * nsec,
+                root_chord=1.0, meshes="gen-meshes", nx=2, ny=[3] * nsec,
+                twist_cp=[np.zeros(2) for _ in range(nsec)], t_over_c_cp=[np.array([0.08 + 0.02 * k]) for k in range(nsec)],
+                CL0=0.0, CD0=0.015, k_lam=0.05, c_max_t=0.303, with_viscous=True, with_wave=False)
+    p = om.Problem(reports=False)
+    p.model.add_subsystem("g", MultiSecGeometry(surface=surf, joining_comp=True, dim_constr=[np.ones(3)] * (nsec - 1) if nsec > 1 else []), promotes=["*"])
+    p.setup()
+    p.final_setup()
+    conn = p.model._conn_global_abs_in2out
+    uni = "g.surface_unification"
+    join = "g.surface_joining"
+    for k, n in enumerate(names):
+        for tgt, src in (("%s.%s_def_mesh" % (uni, n), "g.%s.mesh" % n), ("%s.%s_t_over_c" % (uni, n), "g.%s.t_over_c" % n),
+                         ("%s.%s_join_mesh" % (join, n), "g.%s.mesh" % n)):
+            got = conn.get(tgt)
+            # the source is an output of section n's own geometry group (whatever its internal name)
+            ok = got is not None and got.startswith("g.%s." % n) and got.rsplit(".", 1)[-1] == src.rsplit(".", 1)[-1]
+            env.holds("C19,C18,C14", "multi-section wiring: %s <- section %d (%s)" % (tgt.split(".", 1)[1], k, src.split(".", 1)[1]), ok, "connected to %s" % got)
+    secs = p.model.g.surface_unification.options["sections"]
+    env.holds("C19,C14", "the unification component is built for the sections in the listed order", [s["name"] for s in secs] == names, str([s["name"] for s in secs]))
